@@ -32,6 +32,7 @@ HDRS = ["h.h", "g.h", "k.h"]
 FLAGS = ["F0", "F1", "F2"]
 VALS = ["V0", "V1"]
 PMACS = ["H0"]
+TUNE = ["T0", "T1", "T2"]          # defined / undefined only by compiled files, tested by other compiled files and shared headers
 MAINS = [["src", "a.c"], ["src", "b.c"], ["src", "sub", "c.c"], ["inc1", "d.c"]]
 PLATFORMS = ["P0", "P1", "P2", "P3"]
 COMPILERS = ["gcc", "gcc", "cc", "clang", "g++", "icx", "nvcc", "mycc"]
@@ -111,6 +112,11 @@ def gen_body(rng, names, depth, budget, wild=False):
     return out
 
 
+def parse_ok(lines):
+    """True if `lines` is a sequence of complete items (a safe place to insert something after it)."""
+    return balanced(lines)
+
+
 def tagname(p):
     return "_".join(p).replace(".", "_")
 
@@ -133,6 +139,11 @@ def gen_files(rng, wild=False, prefix=(), outside=None):
         for d in places:
             p = d + n
             body = gen_body(rng, later, 0, 10, wild)
+            if rng.random() < 0.35:
+                # a shared header testing a macro that only a compiled file defines
+                t = rng.choice(TUNE)
+                body += rng.choice([[["If", ["Defd", t]], ["Code"], ["Endif"]],
+                                    [["If", ["NDefd", t]], ["Code"], ["Else"], ["Code"], ["Endif"]]])
             fp = f"IN_{tagname(p)}"
             body += [["Def", fp, "E"]]          # fingerprint of which copy was read
             style = rng.random()
@@ -152,6 +163,25 @@ def gen_files(rng, wild=False, prefix=(), outside=None):
         body += gen_body(rng, names, 0, 14, wild)
         for f in rng.sample(FLAGS + VALS, rng.randint(1, 3)):
             body += [["If", ["Defd", f]], ["Code"], ["Endif"]]
+        # macros flowing from one compiled file to the next: this file defines (or undefines) its own
+        # tuning macro AFTER any forced include and tests the other files' ones
+        mine = TUNE[len([x for x in files.values() if x[0][-1].endswith(".c")]) % len(TUNE)]
+        r = rng.random()
+        if r < 0.6:
+            own = [["Undef", mine], ["Def", mine, rng.choice(["E", 1])]]
+        elif r < 0.75:
+            own = [["Undef", mine]]
+        else:
+            own = []
+        tests = []
+        for t in TUNE:
+            if t != mine and rng.random() < 0.6:
+                tests += rng.choice([[["If", ["Defd", t]], ["Code"], ["Endif"]],
+                                     [["If", ["Defd", t]], ["Code"], ["Else"], ["Code"], ["Endif"]],
+                                     [["If", ["NDefd", t]], ["Code"], ["Endif"]]])
+        k = rng.choice([0, 0, 1, len(body)])
+        body = body[:k] + own + body[k:] if parse_ok(body[:k]) else own + body
+        body = rng.choice([tests + body, body + tests])
         files[pstr(m)] = [m, normalise(body)]
     return sorted(files.values(), key=lambda f: f[0]), mains, names
 
@@ -176,11 +206,36 @@ def gen_entry(rng, mains, names, prefix=(), outside=None):
     return [main, dirs, defs, incs]
 
 
+def gen_group(rng, mains, names, prefix=(), outside=None):
+    """2-4 commands with IDENTICAL -I/-D/-include options (0-2 forced includes, mostly >= 1) on different
+    compiled files, preferably of one directory - what a build system emits for one target."""
+    _, dirs, defs, incs = gen_entry(rng, mains, names, prefix, outside)
+    incs = [rng.choice(names) for _ in range(rng.choice([1, 1, 1, 2, 2, 0]))]
+    by_dir = {}
+    for m in mains:
+        by_dir.setdefault(pstr(m[:-1]), []).append(m)
+    same = [g for g in by_dir.values() if len(g) >= 2]
+    pool = rng.choice(same) if same and rng.random() < 0.7 else list(mains)
+    k = rng.choice([2, 2, 3, 4])
+    chosen = list(pool)
+    rng.shuffle(chosen)
+    chosen = chosen[:k]
+    while len(chosen) < k:
+        chosen.append(rng.choice(pool))
+    return [[m, list(dirs), [list(d) for d in defs], [list(n) for n in incs]] for m in chosen]
+
+
 def gen_cfg(rng, mains, names, prefix=(), outside=None, max_plat=4):
     cfg = []
     for p in PLATFORMS[:rng.randint(1, max_plat)]:
-        k = rng.choice([1, 1, 2, 2, 2, 3, 3, 4])
-        cfg.append([p, [gen_entry(rng, mains, names, prefix, outside) for _ in range(k)]])
+        if rng.random() < 0.45:
+            es = gen_group(rng, mains, names, prefix, outside)
+            if rng.random() < 0.3:
+                es.insert(rng.randint(0, len(es)), gen_entry(rng, mains, names, prefix, outside))
+        else:
+            k = rng.choice([1, 1, 2, 2, 2, 3, 3, 4])
+            es = [gen_entry(rng, mains, names, prefix, outside) for _ in range(k)]
+        cfg.append([p, es])
     return cfg
 
 
@@ -326,6 +381,8 @@ def write_cli_inputs(root, cfg, seed, toml_exclude=None, shuffle=False, rel_root
         for e in es:
             main, dirs, defs, incs = e[:4]
             arch = e[4] if len(e) > 4 else None
+            rng_sh = rng
+            rng = random.Random(f"{seed}:{json.dumps([dirs, defs, incs, arch])}")     # a function of the options only
             comp = rng.choice(COMPILERS)
             if arch is not None:
                 comp = "archcc"                      # defined in .cbi/config (USER_CONFIG)
@@ -355,6 +412,7 @@ def write_cli_inputs(root, cfg, seed, toml_exclude=None, shuffle=False, rel_root
             else:
                 ent["command"] = shlex.join(args)
             db.append(ent)
+            rng = rng_sh
         (root / f"db_{p}.json").write_text(json.dumps(db, indent=1))
         lines += [f"[platform.{p}]", f'commands = "db_{p}.json"', ""]
     (root / toml_name).write_text("\n".join(lines))
